@@ -222,7 +222,7 @@ fn mutant_case(u: &mut Choices, sz: Size) -> CaseResult {
 // ------------------------------------------------------------------------------------------------
 // stage: parser-accepted but ill-typed programs x awkward documents
 
-const ILL_TYPED: [&str; 54] = [
+const ILL_TYPED: [&str; 55] = [
     "rule r { this[ a == 1 ] exists }",
     "rule r { a[0][ k == 1 ] exists }",
     "rule r { a.*[ k == 1 ][ k == 1 ] !empty }",
@@ -270,6 +270,7 @@ const ILL_TYPED: [&str; 54] = [
     "rule r { AWS::S3::Bucket when Properties exists { Properties.a.b.c == 1 <<msg>> } }",
     "rule r { some a[*].k IN [1, /x/, r[1,2]] or\n a !empty <<\nmulti\nline\n>> }",
     "rule r when a exists { a { this == this } }",
+    "rule r { a[2147483648] exists\n a[4294967297] exists\n a[-2147483648] exists\n a[-2147483649] exists\n a[9223372036854775807] exists\n b.2147483648 exists }",
     "rule r { Resources.*.Properties.*.a == 12345\n Resources.*.*.a == 12345\n Resources.*.Properties.* == 12345 }\nAWS::S3::Bucket { this.*.a == 12345 }",
     "rule r { a in [/^(a+)+\\1$/, \"z\"]\n b in [/^(a+)+\\1$/]\n a not in [/^(a+)+\\1$/, /x/] }",
     "rule r { b == [/^(a+)+\\1$/]\n some b[*] in [/^(a+)+\\1$/, 1] }",
@@ -618,7 +619,7 @@ pub fn replay(case: &J) -> CaseResult {
 
 pub fn run(tier: Tier, seed: u64) -> i32 {
     let spec = EvidenceSpec {
-        rule: "Stage 'test-specs': every combination of 2-3 test files of 7 kinds (good, mismatching, truncated, not a list, empty, unknown status word, without input) for one rules file x 4 output formats, through `test -r -t <directory>` and `test --dir`. Stage 'framing': generated rule texts (valid, with a malformed tail, mutated, with a stray leading token) are accepted or rejected by the parser alike with and without a comment header of 1-60 lines and / or trailing comments. Stage 'ill-typed': 54 parser-accepted but ill-typed program shapes (filters after this / an index / another filter, map-key filters, unary checks on literal variables, function arguments of the wrong type or from empty selections, look-around / back-reference regexes, huge and negative indices, interpolation of non-strings, wrong arity, unknown rules and functions, reversed ranges) x 31 awkward documents (scalars and lists at the root, CloudFormation- and Terraform-plan-shaped documents that are slightly wrong, multi-byte text around byte 100 in malformed data, comment-only, multi-document, tags, aliases, complex keys, overflowing numbers, BOM, tabs). Stage 'mutants': generated wide programs and documents with 1-3 token/byte mutations (truncate, delete, duplicate, swap, splice, dictionary insert, bracket/quote flip, nesting up to 48). Stage 'raw': token soup for every file role. Each input goes through run_checks (verbose and not), parse-tree (json, yaml), validate --payload in six output modes, and for a share also -r/-d files, stdin data, -i, and `test` in three formats (the data text doubling as spec and parameter file): any panic is a violation; a rules text rejected by parse-tree must make validate exit 5 with `line .. column ..` and no evaluated rule. Stage 'process': recursion, 48-64-deep nesting and rulegen / payload edge cases through the real binary: the process must terminate normally. Non-trivial: the rules text is accepted by the parser or within 3 edits of an accepted one; distinct by hash of the texts.".into(),
+        rule: "Stage 'test-specs': every combination of 2-3 test files of 7 kinds (good, mismatching, truncated, not a list, empty, unknown status word, without input) for one rules file x 4 output formats, through `test -r -t <directory>` and `test --dir`. Stage 'framing': generated rule texts (valid, with a malformed tail, mutated, with a stray leading token) are accepted or rejected by the parser alike with and without a comment header of 1-60 lines and / or trailing comments. Stage 'ill-typed': 55 parser-accepted but ill-typed program shapes (filters after this / an index / another filter, map-key filters, unary checks on literal variables, function arguments of the wrong type or from empty selections, look-around / back-reference regexes, huge and negative indices, interpolation of non-strings, wrong arity, unknown rules and functions, reversed ranges) x 31 awkward documents (scalars and lists at the root, CloudFormation- and Terraform-plan-shaped documents that are slightly wrong, multi-byte text around byte 100 in malformed data, comment-only, multi-document, tags, aliases, complex keys, overflowing numbers, BOM, tabs). Stage 'mutants': generated wide programs and documents with 1-3 token/byte mutations (truncate, delete, duplicate, swap, splice, dictionary insert, bracket/quote flip, nesting up to 48). Stage 'raw': token soup for every file role. Each input goes through run_checks (verbose and not), parse-tree (json, yaml), validate --payload in six output modes, and for a share also -r/-d files, stdin data, -i, and `test` in three formats (the data text doubling as spec and parameter file): any panic is a violation; a rules text rejected by parse-tree must make validate exit 5 with `line .. column ..` and no evaluated rule. Stage 'process': recursion, 48-64-deep nesting and rulegen / payload edge cases through the real binary: the process must terminate normally. Non-trivial: the rules text is accepted by the parser or within 3 edits of an accepted one; distinct by hash of the texts.".into(),
         assumptions: vec!["nesting depth is bounded by 64 as the statement allows".into(), "in-process calls are wrapped in catch_unwind; inputs that may exhaust the stack (recursion, deep nesting) go through the real binary".into()],
     };
     execute("C08", tier, seed, spec, &replay, &|run: &Session| {
